@@ -45,6 +45,15 @@ CLAIMED = {
  'C17': ("same generated cases as C05 x every buffer length 0..=k+2 with stale pre-fill from the previous search (2-step histories); differential against the allocating search, field by field",
          "Exploration: find_n into buffers of every length n in 0..=k+2, pre-filled with the previous search's entries: data() = first min(n,k) results (deep field compare incl. both halves of gaps), count()=k, is_exhaustive iff n>=k, untouched tail slots, same error kind, and unique/earliest/latest equal to the allocating search when exhaustive.",
          "The allocating search is the reference (itself checked by C05/C06).", "DESIGN.md §5 C17"),
+ 'C08': ("model zones -> independent TZif writer (v1/v2/v3, decoy 32-bit block, shared/suffix designations, all indicator combinations) -> decoder; 14 single-defect corruption classes decided by an independent strict reader; every real tzdata file and its truncations (differential against the reader)",
+         "Exploration: generated zones written by an independent writer must decode to exactly TimeZone::new(parts); each listed format violation must be rejected; every other byte-level outcome (truncations, count edits, byte flips, footer edits) must equal the reference decoding through an independent strict reader + O-tzstr; all 894 real tzdata 2025b files decode to what the reader reads, as do all prefixes of a sample (thorough: of all).",
+         "Writer/reader written from RFC 8536 §3 (round-trip self-test per case); zone-level validity inside the reference decoding is delegated to the crate's constructor (C13's subject); mixed version bytes carry no claim.", "DESIGN.md §5 C08"),
+ 'C09': ("grammar-directed sentence generation with independent spelling choices (both modes) + bounded-exhaustive token strings (<= 5 tokens of a 24-token alphabet) + one-character mutations, through three observation paths, against an independent recursive-descent recogniser/evaluator",
+         "Exploration: accept <=> sentence of the grammar in the path's mode (and order-stable rule), decoded rule equal to the evaluator's (names, negated offsets, default +1 h, default 02:00:00, day notations, signed/extended times only in v3 footers); complete for all token sequences of length <= 5 (8.3e6 strings x 3 paths), sampled for long sentences and mutations.",
+         "O-tzstr recogniser (self-tested against its own generator); whitespace stripping of the two observation layers is applied before the oracle.", "DESIGN.md §5 C09"),
+ 'C20': ("model-based proptest: TZ values x virtual file systems x directory lists through the recording read function, against a reference resolver written from tzset(3)",
+         "Exploration: exact sequence of opened paths, outcome class (file chosen / decoded as description / empty / I/O error / decoding error without fallback / description refused) and decoded zone must equal the reference resolver's for generated TZ values (padded, ':'-prefixed, absolute, relative, sentence-and-filename), directory lists and virtual file systems populated on the candidate paths; parse_local() reads /etc/localtime only.",
+         "Reference resolver transcribed from the property text; virtual file system is harness state.", "DESIGN.md §5 C20"),
 }
 
 def entry(pid):
